@@ -43,6 +43,9 @@ func newInfoSA(s bridge.SuiteSel) *security.IKESAKey {
 
 // checkSAKeys compares the keys and the ready-to-use objects of sa with the reference derivation.
 func checkSAKeys(sa *security.IKESAKey, s bridge.SuiteSel, want ref.IKEKeys) error {
+	if sa == nil {
+		return fmt.Errorf("no SA was returned although no error was reported")
+	}
 	for _, x := range []struct {
 		name      string
 		got, want []byte
